@@ -149,7 +149,7 @@ def leg_b(ctx, q):
                         ctx.sample({"driver": [str(a) for a in args], "event": ln.strip()[:600]})
                         break
         for sh in split(t, 40000):
-            rej = c.validate("Route/RouteTrace.tla", "RouteTrace.cfg", sh, max_rejects=4, env=pv.JENV, timeout=1700)
+            rej = c.validate("Route/RouteTrace.tla", "RouteTrace.cfg", sh, max_rejects=4, env=pv.JENV, timeout=1700, heap="3g")
             for x in rej:
                 sg = signature(x["event"])
                 with pv._lock:
